@@ -885,6 +885,28 @@ def _rule1(ctx, rep):
                     f'after {label[ph]} the worker replies with success flag(s) {flags or "none (no reply sent)"}; '
                     f'the routing in Hand._res needs {expect[ph]} (T=True, N=None, F=False)',
                 )
+            # every way the run can end becomes a reply: the try around Context.run has a handler for BaseException (bare or
+            # named) - sys.exit() / KeyboardInterrupt inside algorithm code are not Exceptions (added after seeded change
+            # C05-3: `except:` narrowed to `except Exception:`; the finally block then sent the task message back)
+            r.instance()
+            guarded = [n for n in w.own_nodes() if isinstance(n, ast.Try) and id(n) in rf.run_trys and n.handlers]
+            base_ok = bool(guarded)
+            inner = [t for t in guarded if not any(o is not t and any(x is o for x in ast.walk(t)) for o in guarded)]
+            for t in inner:  # the innermost try with handlers around the run call
+                covered = False
+                for h in t.handlers:
+                    types = [] if h.type is None else (h.type.elts if isinstance(h.type, ast.Tuple) else [h.type])
+                    if h.type is None or any((prog.resolve_in(x, w) or '') == 'external:BaseException' or norm(x) == 'BaseException' for x in types):
+                        covered = True
+                base_ok = base_ok and covered
+            r.check(
+                base_ok,
+                f'{wq}:base-exception',
+                where(w),
+                'the try around Context.run catches BaseException (bare except)',
+                'an algorithm that ends with a BaseException that is not an Exception (sys.exit(), KeyboardInterrupt) skips every handler of the worker: '
+                'no failure reply is built, the unit stays in doing and its dependents keep waiting',
+            )
         # ---- (c) Hand._res (helpers that lead to complete/update/purge are followed)
         g, msg, route, exits = _res_facts(ctx)
         rep.analysed(g, *route.followed.values())
@@ -1904,6 +1926,8 @@ _SETTLE = (
 _COMPLETE_CALL = 'dawgie.pl.schedule.complete(job, msg.runid, inc, msg.timing, state)\n\n            '
 
 VARIANTS = [
+    V('cluster worker catch-all narrowed to Exception', 'B', _CL, 'execute', 'except:  # noqa: E722', 'except Exception:', 'R-C05-1'),
+    V('aws worker catch-all named BaseException', 'N', _AWS, 'execute', 'except:  # noqa: E722', 'except BaseException:', None),
     # ---------------------------------------------------------------- breaking
     V('purge returns after the first child', 'B', _SCH, 'purge', 'purge(child, target)\n    return', 'purge(child, target)\n        return\n    return', 'R-C05-2'),
     V('purge skips children with nothing pending', 'B', _SCH, 'purge', 'purge(child, target)', "if child.get('todo'):\n            purge(child, target)", 'R-C05-2'),
